@@ -36,8 +36,8 @@ var c29Hosts = []c29Host{
 	{"a.b.c.d.example.net", "plain"},
 	{"xn--bcher-kva.shop.example.org", "plain"},
 	{" app.cust1.example.org ", "exotic"}, // same as the first after normalization
-	{"app.\tcust2.example.net", "exotic"},  // same as the third
-	{"bücher.shop.example.org", "exotic"},  // same as the fifth
+	{"app.\tcust2.example.net", "exotic"}, // same as the third
+	{"bücher.shop.example.org", "exotic"}, // same as the fifth
 	{"App.Cust1.Example.org", "exotic"},
 	{"app.cust1.example.org.", "exotic"},
 	{"example.org", "bare"},
